@@ -21,7 +21,7 @@ func init() {
 			"len(rec.Names) is the number of successful validations; (R2) the validating pass and the storing pass cut the same initial string with the same cutter, and that string is a " +
 			"copying conversion of the line tail; (R3) separator tables agree: every cutset is the constant `spaces`, only the recognised trimming/cutting calls occur, MarshalText's separator " +
 			"byte is in `spaces`; (R4) callee identity: names by netutil.ValidateDomainName, address by netip.Addr.UnmarshalText, MarshalText writes Addr.MarshalText then sep+name in slice order. " +
-			"Not decided: conformance for all byte lines, which needs the string semantics of netip.ParseAddr and ValidateDomainName.",
+			"ValidateDomainName, uninterpreted above, measures and cuts only the Punycode form of its argument (validator-discipline). Not decided: conformance for all byte lines, which needs the string semantics of netip.ParseAddr and ValidateDomainName.",
 		Technique: "exact abstract evaluation of Record.UnmarshalText into ROBDDs with the delegate parsers as uninterpreted predicates per window (accepted lines == the record grammar for every line of bounded length) + SSA dominance / callee-identity / path-counting rules for the classification of rejected lines, the stored names and MarshalText",
 		Note:      "Trusted: go/ssa; bytes/strings Trim, TrimLeft, IndexAny, IndexByte; netip.Addr text codec.",
 		DesignRef: "DESIGN.md section 4, C07",
@@ -70,6 +70,7 @@ func runC07(c *Ctx) {
 	// functions are its fall-back (the classification of rejected lines, the
 	// stored names, the delegates and MarshalText keep their own rules)
 	recExact := c07RecordExact(c)
+	validatorDiscipline(c, "C07")
 	c.L.Trust("go/types + go/ssa", "bytes/strings: Trim, TrimLeft, IndexAny, IndexByte", "netip.Addr.UnmarshalText / MarshalText", "rule code /verif/sa/rules/hostsfile.go")
 	c.L.Floor("C07.separators", 5)
 	c.L.Floor("C07.classify", 4)
